@@ -16,7 +16,8 @@ func init() {
 			"OIDF OIDL CDAT GDA2 GDO2 EDGE BIDX BDAT BASE and the terminator to four zero bytes, four bytes each; (required-chunks) readChunkHeaders rejects a file that lacks the OIDF, OIDL or CDAT chunk and a table that does not end with the " +
 			"terminator; (parent-encoding) the parent-slot constants have git's values (none 0x70000000, extra-edges flag and last-edge flag 0x80000000, mask 0x7fffffff), are never reassigned and are used by both the encoder and the reader; " +
 			"(checksum-tee) NewEncoder uses the destination writer only inside io.MultiWriter together with the hasher whose sum encodeChecksum writes. (position-spaces) in the methods of fileIndex no comparison mixes a global commit position (Index API arguments, parent slots and extra-edge entries read from the file) with a layer-local one (fanout counts) or a local one with the base count, " +
-			"record offsets are computed from local positions, and positions returned through the Index API are not local ones — the two spaces coincide for a single file and differ in every layer of a split chain above the base. (date-field-width) the commit time the reader hands to time.Unix can carry as many bits as the encoder stores below the level (level << 34), computed from the masks, shifts and integer widths of the expression. Not decided: generation-number arithmetic beyond that, the chain file itself, acceptance by git.",
+			"record offsets are computed from local positions, and positions returned through the Index API are not local ones — the two spaces coincide for a single file and differ in every layer of a split chain above the base. (date-field-width) the commit time the reader hands to time.Unix can carry as many bits as the encoder stores below the level (level << 34), computed from the masks, shifts and integer widths of the expression. (overflow-threshold-one-value) every ordering comparison of the encoder against a constant between 2^31-1 and 2^32 means 'offset >= 2^31' (found and fixed, d1eb989: the pass that sizes the chunks counted overflows with `> MaxUint32` while the writing pass sends every offset from 2^31 on to the GDO2 chunk, so for the values in between the chunk was written but neither sized nor listed and the file could not be read back); " +
+			"(overflow-slot-is-rank) the value or-ed with the overflow flag in a GDA2 slot is a counter that changes only in the overflow branch, or the length of the list appended to there — the position in the GDO2 chunk, not the commit's index. Not decided: generation-number arithmetic beyond that, the chain file itself, acceptance by git.",
 		Assumptions: []string{},
 		Run:         runC51,
 	})
@@ -32,6 +33,7 @@ func runC51(c *Ctx) {
 	}
 	info := pk.TypesInfo
 	PackagesStateFree(c, "codec-state-free", cg)
+	checkGenerationOverflow(c, "overflow-threshold-one-value", "overflow-slot-is-rank")
 
 	// chunk-table-pairing
 	const r1 = "chunk-table-pairing"
